@@ -27,7 +27,8 @@ RULE = ('Paired sessions: world A and world B share the configuration and all ma
         'first; configurations where A != A\' are skipped and counted (that is C18\'s subject). Non-trivial = B '
         'differs from A after T, A has >= 1 fill at or before T, >= 1 rebalance after T, and T is not the last day.'
         " Round-5 reach: alpha kinds `cycle` (rotating weight vectors) and `hist` (weights from the data source's public range query up to the rebalance instant); rewrite mode `wild` (the whole future trades at x0.01 .. x100)."
-        " Round-10 reach: market shapes `opens_only_until_after_the_cut` (a symbol whose bars carry no closing prints until a few days past T, adjustment factor 0.5-1) and `suspended_across_the_cut` (no rows for 0-3 days either side of T) in 3 of 8 cases; a quarter of the non-weekly sessions carry a meaningless weekday keyword.")
+        " Round-10 reach: market shapes `opens_only_until_after_the_cut` (a symbol whose bars carry no closing prints until a few days past T, adjustment factor 0.5-1) and `suspended_across_the_cut` (no rows for 0-3 days either side of T) in 3 of 8 cases; a quarter of the non-weekly sessions carry a meaningless weekday keyword."
+        " Round-12 reach: `drop_file` - a symbol with no row left in the removed-future world has no file there at all (cuts placed before a late symbol's first bar); suspensions of up to two and a half weeks before the cut.")
 ASSUMPTIONS = [
     'well-formed CSV files; header-only files are not in the domain',
     'sessions of 5-60 days, <= 5 symbols, signal lookbacks <= 9',
@@ -35,7 +36,7 @@ ASSUMPTIONS = [
 ]
 
 
-def make_b(rows, T, mode, seed):
+def make_b(rows, T, mode, seed, drop_file=False):
     rnd = random.Random(seed)
     keep, fut = [], []
     for r in rows:
@@ -68,6 +69,8 @@ def make_b(rows, T, mode, seed):
         if new[k][4] is not None:
             new[k] = new[k][:4] + [0.0, 0.0 if new[k][5] is not None else None]
     out = keep + new
+    if not out and drop_file:
+        return [], True             # nothing of this symbol is left in that world: it has no file there at all
     if not out:
         out = [r[:3] + [None if x is None else round(x * rnd.uniform(0.3, 3.0), 4) for x in r[3:]] for r in fut]
     return out, True
@@ -81,8 +84,12 @@ def run_case(case):
     mk_b = {}
     changed = False
     for i, (s, rows) in enumerate(mk_a.items()):
-        mk_b[s], ch = make_b(rows, T, case['mode'], case['seed'] + i)
+        mk_b[s], ch = make_b(rows, T, case['mode'], case['seed'] + i, drop_file=bool(case.get('drop_file')))
         changed = changed or ch
+    if not any(mk_b.values()):
+        mk_b = {s: make_b(rows, T, case['mode'], case['seed'] + i)[0] for i, (s, rows) in enumerate(mk_a.items())}
+    dropped = [s for s, rows in mk_b.items() if not rows]
+    mk_b = {s: rows for s, rows in mk_b.items() if rows}
     syms = list(mk_a)
     reuse = case.get('reuse_handler', False)
     order = case.get('file_order', 'sorted')
@@ -122,13 +129,14 @@ def run_case(case):
             out[s] = rr or [r[:3] + [None if x is None else round(x * 1.25, 4) for x in r[3:]] for r in rows]
         return out
 
-    def world(path):
+    def world(path, have=None):
+        have = list(syms) if have is None else have        # the symbols that have a file in this world
         """One world: optionally a prelude session first, on the very same data handler object (as the shipped
         examples do for strategy and benchmark), then the session under test."""
         if not reuse and two is None:
-            return session.run_session(cfg, path, syms)
+            return session.run_session(cfg, path, have)
         q = load()
-        ds = q.CSVDailyBarDataSource(path, q.Equity, adjust_prices=cfg.get('adjust', True), csv_symbols=list(syms))
+        ds = q.CSVDailyBarDataSource(path, q.Equity, adjust_prices=cfg.get('adjust', True), csv_symbols=list(have))
         if two is not None:
             # the handler is given the short second-vendor source first and the full one second
             import os
@@ -139,7 +147,7 @@ def run_case(case):
             else:
                 dh = q.BacktestDataHandler(None, data_sources=[ds])
             if not reuse:
-                return session.run_session(cfg, path, syms, data_source=ds, data_handler=dh)
+                return session.run_session(cfg, path, have, data_source=ds, data_handler=dh)
         else:
             dh = q.BacktestDataHandler(None, data_sources=[ds])
         pre = json.loads(json.dumps(cfg))
@@ -147,14 +155,14 @@ def run_case(case):
         pre['universe'] = {'kind': 'static', 'assets': ['EQ:' + s for s in syms]}
         pre['burn_in'] = None
         pre['long_only'], pre['buffer'] = True, 0.05
-        session.run_session(pre, path, syms, data_source=ds, data_handler=dh)
+        session.run_session(pre, path, have, data_source=ds, data_handler=dh)
         # ... and the handler has also answered queries over the whole file, including its last bars
         end = cal.ts6(cfg['end'])
         for a in ['EQ:' + s for s in syms]:
             for back in (0, 1, 5, 30, 400):
                 for f in (dh.get_asset_latest_bid_price, dh.get_asset_latest_ask_price, dh.get_asset_latest_mid_price):
                     f(end + D.timedelta(days=30 - back), a)
-        return session.run_session(cfg, path, syms, data_source=ds, data_handler=dh)
+        return session.run_session(cfg, path, have, data_source=ds, data_handler=dh)
     @contextlib.contextmanager
     def laid_out(mk):
         with market.csv_dir(files(mk)) as pth:
@@ -175,7 +183,7 @@ def run_case(case):
         return Result(['nondeterministic_skipped'], excluded='nondeterministic')
     clear_caches()
     with laid_out(mk_b) as pb:
-        rb = world(pb)
+        rb = world(pb, list(mk_b))
     clear_caches()
     db = session.digest(rb, Tend)
     ea = ra.error if ra.error and ra.error[2] <= Tend else None
@@ -198,6 +206,8 @@ def run_case(case):
         cls.append('files_' + order)
     if two is not None:
         cls.append('two_sources_first_one_starts_after_cut' if two == 'late' else 'two_sources_first_one_ends_near_cut')
+    if dropped:
+        cls.append('symbol_without_any_file_once_the_future_is_removed')
     if ra.error:
         cls.append('session_error_' + ra.error[0])
     if ea:
@@ -247,6 +257,16 @@ def cases(draw):
             if all(mk.values()) and prev >= d0:
                 cut = prev
                 labels.append('holiday_on_a_month_end_cut_the_day_before')
+    forced = None
+    if 'late_start_symbol' in labels and draw(st.sampled_from([False, True])):
+        # the cut falls before the late symbol's first bar and the future is removed altogether: in that world the
+        # symbol has no file at all
+        fd_ = market.first_date(mk[names[late_idx]])
+        c_ = fd_ - D.timedelta(days=draw(st.integers(1, 3)))
+        if c_ >= d0:
+            cut = c_
+            forced = 'delete'
+            labels.append('cut_before_the_late_symbol_starts')
     shape = draw(st.sampled_from([None] * 5 + ['open_only_lead', 'suspended_across_cut', 'suspended_across_cut']))
     if shape:
         s = draw(st.sampled_from(sorted(mk)))
@@ -259,14 +279,15 @@ def cases(draw):
             labels.append('opens_only_until_after_the_cut')
         else:
             # a symbol suspended for a few days around the cut: no rows at all, trading resumes afterwards
-            lo = cut - D.timedelta(days=draw(st.integers(0, 3)))
-            hi = cut + D.timedelta(days=draw(st.integers(0, 3)))
+            lo = cut - D.timedelta(days=draw(st.sampled_from([0, 1, 2, 3, 8, 12, 16])))         # (up to two and a half weeks)
+            hi = cut + D.timedelta(days=draw(st.sampled_from([0, 1, 2, 3, 8])))
             rows = [r for r in mk[s] if not lo <= D.date(r[0], r[1], r[2]) <= hi]
             if rows and any(D.date(r[0], r[1], r[2]) < lo for r in rows):
                 mk[s] = rows
                 labels.append('suspended_across_the_cut')
-    return {'cfg': cfg, 'market': mk, 'cut': [cut.year, cut.month, cut.day],
-            'mode': draw(st.sampled_from(['rewrite', 'rewrite', 'delete', 'mix', 'wild', 'blank'])), 'seed': draw(st.integers(0, 10 ** 6)),
+    mode_ = draw(st.sampled_from(['rewrite', 'rewrite', 'delete', 'mix', 'wild', 'blank']))
+    return {'cfg': cfg, 'market': mk, 'cut': [cut.year, cut.month, cut.day], 'drop_file': draw(st.booleans()) or bool(forced),
+            'mode': forced or mode_, 'seed': draw(st.integers(0, 10 ** 6)),
             'labels': labels + lab, 'reuse_handler': draw(st.sampled_from([False, False, True])),
             'file_order': draw(st.sampled_from(['sorted', 'sorted', 'reversed', 'shuffled'])),
             'second_source': draw(st.sampled_from([None, None, None, 0, 2, 9, 'late', 'late']))}
